@@ -619,6 +619,61 @@ where for<'x> &'x R: RingOps<R> {
     decomp_case(s, pools, &build(&spec), "hidden");
 }
 
+/// many-column inputs for the mutex-protected grouping loop: forests of columns (each column shares one row with an
+/// earlier column of its component) with long filler columns that widen any race window; judged against an independent
+/// union-find on "columns share a row", in pools of 1/2/3/4/8 threads, several repetitions on the SAME pool.
+fn decomp_stress(s: &mut Sink, r: &mut Rng) {
+    let ncomp = 2 + r.below(4) as usize;
+    let mut cols: Vec<Vec<usize>> = vec![];     // column -> rows
+    let mut truth: Vec<usize> = vec![];         // column -> component
+    let mut nrows = 0usize;
+    for c in 0..ncomp {
+        let w = 12 + r.below(60) as usize;
+        let first = cols.len();
+        for k in 0..w {
+            let mut rows = vec![];
+            if k > 0 {
+                // share a fresh row with a random earlier column of this component (star or random tree)
+                let parent = if r.chance(1, 2) { first } else { first + r.below(k as u64) as usize };
+                cols[parent].push(nrows); rows.push(nrows); nrows += 1;
+            }
+            // filler rows private to this column
+            let fill = if k == 0 || r.chance(1, 10) { 200 + r.below(3000) as usize } else { r.below(3) as usize };
+            for _ in 0..fill { rows.push(nrows); nrows += 1; }
+            if rows.is_empty() { rows.push(nrows); nrows += 1; }
+            cols.push(rows); truth.push(c);
+        }
+    }
+    let n = cols.len();
+    let mut perm: Vec<usize> = (0..n).collect();
+    r.shuffle(&mut perm);                       // hide the structure: new column index perm[j]
+    let mut ent: Vec<(usize, usize, i64)> = vec![];
+    for (j, rows) in cols.iter().enumerate() { for &i in rows { ent.push((i, perm[j], if r.bool() { 1 } else { -1 })); } }
+    let a: SpMat<i64> = SpMat::from_entries((nrows, n), ent);
+    let desc = format!("stress decomp: {} components, {} columns, {} rows, seed-derived", ncomp, n, nrows);
+    let expected: BTreeSet<Vec<usize>> = (0..ncomp).map(|c| { let mut v: Vec<usize> = (0..n).filter(|&j| truth[j] == c).map(|j| perm[j]).collect(); v.sort(); v }).collect();
+    for k in [1usize, 2, 3, 4, 8] {
+        let pool = rayon::ThreadPoolBuilder::new().num_threads(k).build().unwrap();
+        for rep in 0..(if k == 1 { 1 } else { 4 }) {
+            let a2 = a.clone();
+            let got = guard(|| pool.install(|| { let (_, q, bl) = dir_sum_decomp(a2); ((0..q.dim()).map(|j| q.at(j)).collect::<Vec<usize>>(), bl.iter().map(|b| b.ncols()).collect::<Vec<usize>>()) }));
+            let ok = match &got {
+                Some((q, widths)) => {
+                    let mut groups: BTreeSet<Vec<usize>> = BTreeSet::new();
+                    let mut co = 0;
+                    for &w in widths { let mut g: Vec<usize> = (0..n).filter(|&j| co <= q[j] && q[j] < co + w).collect(); g.sort(); groups.insert(g); co += w; }
+                    groups == expected
+                }
+                None => false,
+            };
+            s.oracle(ok, "dir_sum_decomp splits the columns exactly into the classes of 'share a row' — on every thread count and on repeated calls on the same pool",
+                &format!("{} threads={} rep={}", desc, k, rep), &format!("{:?}", got.as_ref().map(|g| g.1.clone())));
+        }
+    }
+    s.eval_only(&desc, true);
+    s.count("decomp.stress");
+}
+
 // ---------------------------------------------------------------------------------------------
 // union-find histories
 // ---------------------------------------------------------------------------------------------
@@ -794,6 +849,7 @@ fn main() {
             _ => guarded_case(&mut s, "decomp Q", |s| gen_decomp::<Ratio<i64>>(s, &mut r, &pools, th)),
         }
     }
+    for i in 0..(if th { 40 } else { 8 }) { guarded_case(&mut s, &format!("decomp stress #{}", i), |s| decomp_stress(s, &mut r)); }
     for _ in 0..n_uf { guarded_case(&mut s, "uf", |s| uf_case(s, &mut r, if th { 16 } else { 10 }, if th { 40 } else { 16 })); }
     s.finish();
 }
